@@ -8,9 +8,10 @@ from common import *
 LEVEL = "model_checking"
 
 
-def run(res, tier):
+def run(res, tier, only=None, pid="C12"):
+    """only: restrict the reported clauses to those whose name is in `only` (C04 reuses the receive grid for Q0)"""
     vdrive = build_harness()
-    cov = res.coverage
+    cov = res.coverage if only is None else {}
     with Scratch("verif-pp-") as tmp:
         copy_specs(tmp)
         g = run_tlc(tmp, "L4ProxyProtoGrid.tla", f"L4ProxyProtoGrid_{tier}.cfg", timeout=900)
@@ -43,8 +44,13 @@ def run(res, tier):
         for b in bad:
             t = traces[b["id"]]
             c = t["case"]
-            sig = "pp:" + c["kind"] + ":" + str(c["fam"]) + ":" + (c["peer"] or c["via"]) + ":" + "+".join(sorted(x.split()[0] for x in b["clauses"]))
-            res.violation(sig, "; ".join(b["clauses"]) + f" (trace {b['id']}, case {c}, observed {t['obs']})", t)
+            cl = [x for x in b["clauses"] if only is None or x.split()[0] in only]
+            if not cl:
+                continue
+            sig = "pp:" + c["kind"] + ":" + str(c["fam"]) + ":" + (c["peer"] or c["via"]) + ":" + "+".join(sorted(x.split()[0] for x in cl))
+            res.violation(sig, "; ".join(cl) + f" (trace {b['id']}, case {c}, observed {t['obs']})", t)
+        if only is not None:
+            return dict(cases=s["recv"] + s["send"])
     res.assumptions += ["headers are produced and parsed by the harness's own encoder/parser (written from the haproxy specification); v2 TLVs are not generated (the library the handler uses rejects them)",
                         "receive cases run on a scripted connection, send cases over loopback TCP"]
 
